@@ -746,6 +746,10 @@ class Node:
         if not attr_node.is_mapping():
             return
 
+        for _, value_node in attr_node.yaml_node.value:
+            if not isinstance(value_node, yaml.MappingNode):
+                return
+
         new_value = list()
         for key_node, value_node in attr_node.yaml_node.value:
             if not isinstance(value_node, yaml.MappingNode):
